@@ -35,8 +35,7 @@ Definition c02_judge (types commands events index : option str) : sx :=
 (* the model: (wf closed_world broken (kf flags) refs_declared report) *)
 Definition c02_model (p : proj) (zod : bool) : sx :=
   SL [sx_bool (wf p); sx_bool (closed_world p); sx_bool (broken p);
-      SL [sx_bool (kf_garbage p); sx_bool (kf_prefix p); sx_bool (kf_zod_enum p zod); sx_bool (kf_result_one_arg p);
-          sx_bool (kf_event_nested p); sx_bool (kf_event_head p); sx_bool (kf_dup_listener p); sx_bool (kf_collision p zod)];
+      SL [sx_bool (kf_garbage p); sx_bool (kf_prefix p); sx_bool (kf_event_head p); sx_bool (kf_dup_listener p); sx_bool (kf_collision p zod)];
       sx_bool (refs_declared p);
       sx_report (gen p zod);
       SL (map SA (used p)); SL (map SA (discovered p))].
